@@ -138,7 +138,8 @@ IPv4Reassembler::PacketStatus IPv4Reassembler::process(PDU& pdu) {
                 }
                 ip->inner_pdu(pdu);
                 ip->fragment_offset(0);
-                ip->flags(static_cast<IP::Flags>(0));
+                // Only the more-fragments flag goes away; keep DF and the reserved bit
+                ip->flags(static_cast<IP::Flags>(ip->flags() & ~IP::MORE_FRAGMENTS));
                 return REASSEMBLED;
             }
             else {
